@@ -510,6 +510,11 @@ func (e *c15Env) run(tag string, f *c15Filter, cf *c15Compiled, inv c15Inv, base
 	if !c15Equal(got, want) {
 		sig, what := "", ""
 		switch {
+		case len(cf.globs) >= 2 && !c15Equal(got, altNoRepo) && c15EntryModel(cf, base, order, rootRel, got, false) >= 0:
+			// one glob out of several did not take effect: more specific than any model below
+			k := c15EntryModel(cf, base, order, rootRel, got, false)
+			sig = "C15:paths-glob-did-not-match:" + c15GlobTag(cf.globs[k])
+			what = fmt.Sprintf("the output equals what one gets when the `paths` glob %q (constructs: %s) matches none of the linted files, although doublestar matches it against the root-relative path of at least one", cf.globs[k], c15GlobTag(cf.globs[k]))
 		case e.p.nested() && inRepoCfg && altOuter != nil && c15Equal(got, altOuter):
 			sig = "C15:nested-repository-attributed-to-outer-repository"
 			what = "layout " + layout + ": the output equals what one gets when the configuration of the OUTER clone is applied (globs matched against the path relative to the outer root) instead of the configuration of the repository containing the file"
@@ -528,6 +533,14 @@ func (e *c15Env) run(tag string, f *c15Filter, cf *c15Compiled, inv c15Inv, base
 		case c15Equal(got, alt):
 			sig = "C15:paths-glob-matched-against-path-as-spelled"
 			what = fmt.Sprintf("run from the repository root with %s paths: the output equals what one gets when the `paths` globs are matched against the argument as spelled on the command line instead of the path relative to the repository root", c15SpNames[inv.Sp])
+		case c15EntryModel(cf, base, order, rootRel, got, false) >= 0:
+			k := c15EntryModel(cf, base, order, rootRel, got, false)
+			sig = "C15:paths-glob-did-not-match:" + c15GlobTag(cf.globs[k])
+			what = fmt.Sprintf("the output equals what one gets when the `paths` glob %q (constructs: %s) matches none of the linted files, although doublestar matches it against the root-relative path of at least one", cf.globs[k], c15GlobTag(cf.globs[k]))
+		case c15EntryModel(cf, base, order, rootRel, got, true) >= 0:
+			k := c15EntryModel(cf, base, order, rootRel, got, true)
+			sig = "C15:paths-glob-matched-wrongly:" + c15GlobTag(cf.globs[k])
+			what = fmt.Sprintf("the output equals what one gets when the `paths` glob %q (constructs: %s) matches every linted file, although doublestar does not match it against the root-relative path of at least one", cf.globs[k], c15GlobTag(cf.globs[k]))
 		case !c15IsSubseq(got, all):
 			sig = "C15:output-not-a-subsequence-of-unfiltered-list"
 			what = "the filtered output contains a diagnostic that the unfiltered run does not have, or in another order"
@@ -611,6 +624,90 @@ func (e *c15Env) baseline() ([][]c15Diag, bool) {
 	return base, true
 }
 
+// c15EntryModel returns the index of a `paths` entry such that the observed output equals the
+// reference with that one glob treated as matching no file (every=false) or every file (every=true);
+// -1 if there is none. Used only to name a disagreement.
+func c15EntryModel(cf *c15Compiled, base [][]c15Diag, order []int, pathOf func(int) string, got []c15Diag, every bool) int {
+	for k := range cf.globs {
+		m := &c15Compiled{cli: cf.cli, entries: cf.entries}
+		m.globs = append([]string{}, cf.globs...)
+		if every {
+			m.globs[k] = "**"
+		} else {
+			m.globs[k] = "c15-matches-no-file"
+		}
+		if alt, _, _ := m.expected(base, order, pathOf); c15Equal(alt, got) {
+			return k
+		}
+	}
+	return -1
+}
+
+// c15CountDecisive counts the (file, glob) pairs of a filter set whose glob result decides the
+// fate of a diagnostic: some pattern of the entry matches a message of the file which no -ignore
+// pattern and no other applicable entry matches. Counted per construct set of the glob, separately
+// for matching and non-matching pairs. The first invocation of every filter set lints all files, so
+// every counted pair is exercised.
+func c15CountDecisive(c *Case, p *c15Project, f *c15Filter, cf *c15Compiled, base [][]c15Diag) {
+	applies := make([][]bool, len(cf.globs))
+	for k, g := range cf.globs {
+		applies[k] = make([]bool, len(p.Files))
+		for i, fl := range p.Files {
+			ok, err := doublestar.Match(g, fl.Rel)
+			applies[k][i] = err == nil && ok
+		}
+	}
+	for k, g := range cf.globs {
+		syn, traits := c15GlobConstructs(g)
+		for i := range p.Files {
+			decisive := false
+		Diag:
+			for _, d := range base[i] {
+				mine := false
+				for _, r := range cf.entries[k] {
+					mine = mine || r.MatchString(d.Msg)
+				}
+				if !mine {
+					continue
+				}
+				for _, r := range cf.cli {
+					if r.MatchString(d.Msg) {
+						continue Diag
+					}
+				}
+				for k2 := range cf.globs {
+					if k2 == k || !applies[k2][i] {
+						continue
+					}
+					for _, r := range cf.entries[k2] {
+						if r.MatchString(d.Msg) {
+							continue Diag
+						}
+					}
+				}
+				decisive = true
+				break
+			}
+			if !decisive {
+				continue
+			}
+			res := "nomatch"
+			if applies[k][i] {
+				res = "match"
+			}
+			if len(syn) == 1 {
+				c.Count("glob_decisive_"+res+"_alone_"+syn[0], 1)
+			} else {
+				c.Count("glob_decisive_"+res+"_combined", 1)
+				c.SetAdd("glob_construct_combinations", strings.Join(syn, "+"))
+			}
+			for _, t := range traits {
+				c.Count("glob_decisive_"+res+"_trait_"+t, 1)
+			}
+		}
+	}
+}
+
 func c15Case(c *Case) {
 	p := c15GenProject(c.R)
 	e := c15Setup(c, p)
@@ -656,7 +753,7 @@ func c15Case(c *Case) {
 
 	pairs := c15AllPairs(p.nested())
 	c.Count("projects_layout_"+c15LayoutNames[p.Layout], 1)
-	kinds := []string{"none", "cli", "config", "both", "all", c.R.Pick([]string{"config", "both", "cli", "config"})}
+	kinds := []string{"none", "cli", "config", "both", "all", "glob"}
 	for fs, kind := range kinds {
 		f := c15GenFilter(c, p, kind, msgs)
 		for i := range f.Entries {
@@ -676,6 +773,7 @@ func c15Case(c *Case) {
 		f.Entries = ents
 		cf := c15Compile(f)
 		cfg := c15Config(p, f)
+		c15CountDecisive(c, p, f, cf, base)
 		for _, g := range cf.globs {
 			any := false
 			for _, fl := range p.Files {
@@ -708,7 +806,7 @@ func c15Case(c *Case) {
 			if inv.Sp != c15SpNoArgs {
 				n := len(p.Files)
 				switch x := c.R.Intn(4); {
-				case x <= 1 || n == 1:
+				case x <= 1 || n == 1 || k == 0:
 					for i := 0; i < n; i++ {
 						inv.Files = append(inv.Files, i)
 					}
@@ -813,9 +911,14 @@ func c15FatalCase(c *Case) {
 		case 3:
 			class = "invalid-glob-in-config"
 			bad := r.Pick(c15BadGlobs)
+			if r.Chance(2, 3) {
+				bad = r.Pick(c15BadGlobsMore)
+			}
 			if doublestar.ValidatePattern(bad) {
+				c.SetAdd("odd_globs_valid_for_doublestar_not_used_as_invalid", bad)
 				continue
 			}
+			c.SetAdd("invalid_globs", bad)
 			cfg = p.BaseCfg + "paths:\n  '**/*.yml':\n    ignore: []\n  " + c15YAMLStr(bad) + ":\n    ignore:\n      - 'x'\n"
 		case 4:
 			bc := c15BadConfigs[r.Intn(len(c15BadConfigs))]
@@ -869,7 +972,7 @@ func c15FatalCase(c *Case) {
 }
 
 func runC15(r *Run) {
-	r.Rule = "scratch repositories (.git marker, 2-7 workflows in .github/workflows and nested sub-directories carrying diagnostics of ~15 kinds with random identifiers, optional base config) linted by the real CLI binary in child processes; per repository one unfiltered baseline and 6 filter sets (none / -ignore / `paths` ignore / both / everything filtered / random) x 8 (cwd, spelling) pairs out of {root, parent, nested, .github/workflows, .github, unrelated} x {relative, ./, absolute, unclean relative, no arguments}, all files / one file / permuted subset, JSON or -oneline output; expected = baseline minus messages matched by Go regexp under globs matched by doublestar against the root-relative path. Patterns: derived from the observed messages (word, quoted token, anchored prefix/suffix/full, alternation, case-insensitive) and static ones matching nothing / everything / kind names / path-like text. Lists of interacting patterns (inline flags (?i) (?s) (?U) (?m) in a non-last pattern followed by a pattern matching only under that flag, (?i:...) groups, (?-i), anchors in every pattern, alternations and empty alternatives inside a pattern, empty patterns, equal group names) in -ignore and in config ignore lists; the reference compiles each pattern alone. Repository layouts: .git directory; .git regular FILE (linked worktree); .git file (submodule) or .git directory nested in vendor/ of an outer ordinary clone that has its own different (sometimes broken) configuration, additionally linted from the outer root; the repository of a file is the nearest ancestor with .github/workflows and a .git entry. Fatal family: missing file, invalid -ignore regexp, invalid regexp / glob / YAML in config, missing -config-file, no repository, unknown or malformed flags. Non-trivial = run in which the filter removes at least one diagnostic, or a fatal scenario."
+	r.Rule = "scratch repositories (.git marker, 2-7 workflows in .github/workflows and nested sub-directories carrying diagnostics of ~15 kinds with random identifiers, optional base config) linted by the real CLI binary in child processes; per repository one unfiltered baseline and 6 filter sets (none / -ignore / `paths` ignore / both / everything filtered / random) x 8 (cwd, spelling) pairs out of {root, parent, nested, .github/workflows, .github, unrelated} x {relative, ./, absolute, unclean relative, no arguments}, all files / one file / permuted subset, JSON or -oneline output; expected = baseline minus messages matched by Go regexp under globs matched by doublestar against the root-relative path. Patterns: derived from the observed messages (word, quoted token, anchored prefix/suffix/full, alternation, case-insensitive) and static ones matching nothing / everything / kind names / path-like text. Lists of interacting patterns (inline flags (?i) (?s) (?U) (?m) in a non-last pattern followed by a pattern matching only under that flag, (?i:...) groups, (?-i), anchors in every pattern, alternations and empty alternatives inside a pattern, empty patterns, equal group names) in -ignore and in config ignore lists; the reference compiles each pattern alone. Repository layouts: .git directory; .git regular FILE (linked worktree); .git file (submodule) or .git directory nested in vendor/ of an outer ordinary clone that has its own different (sometimes broken) configuration, additionally linted from the outer root; the repository of a file is the nearest ancestor with .github/workflows and a .git entry. `paths` globs cover the doublestar syntax: literal path, *, **, ?, [abc], [a-c], [^a]/[!a], {a,b} on file names / directories / extensions, nested {a,{b,c}}, empty alternative {,x}, backslash escapes, leading ./, trailing /, combinations; file names with spaces, non-ASCII and glob meta characters; each derived from a project file to match it or to miss it narrowly, classified by a scanner of the glob text; invalid globs (unbalanced [ or {, dangling escape; decided by doublestar.ValidatePattern) only in the fatal family. Fatal family: missing file, invalid -ignore regexp, invalid regexp / glob / YAML in config, missing -config-file, no repository, unknown or malformed flags. Non-trivial = run in which the filter removes at least one diagnostic, or a fatal scenario."
 	r.Assume("diagnostics of one workflow file do not depend on the other files of the run (no local actions / reusable workflows are generated), so the unfiltered list of any file subset is the concatenation of the per-file baselines in command line order")
 	r.Assume("Go regexp and doublestar.Match (the documented matchers) define 'matches'; shellcheck and pyflakes are disabled with -shellcheck= -pyflakes=")
 	r.Assume("which configuration file applies is not examined: -config-file is only used when the repository has no .github/actionlint.y(a)ml; stdin input and several repositories in one run are excluded (C10)")
@@ -910,6 +1013,19 @@ func runC15(r *Run) {
 			need(r.SetHas("layout_x_cwd", ln+"/"+c15CwdNames[cw]), "layout "+ln+" never linted from cwd "+c15CwdNames[cw])
 		}
 	}
+	nGlob := int64(r.Q(3, 40))
+	for _, syn := range c15GlobSyntax {
+		m, n := r.Counter("glob_decisive_match_alone_"+syn), r.Counter("glob_decisive_nomatch_alone_"+syn)
+		need(m >= nGlob && n >= nGlob, fmt.Sprintf("glob construct %s alone: %d matching and %d non-matching decisive (file, glob) pairs, need %d each", syn, m, n, nGlob))
+	}
+	need(r.Counter("glob_decisive_match_combined") >= nGlob && r.Counter("glob_decisive_nomatch_combined") >= nGlob, "too few decisive (file, glob) pairs with combined glob constructs")
+	for _, t := range []string{"space", "non-ascii"} {
+		need(r.Counter("glob_decisive_match_trait_"+t) > 0 && r.Counter("glob_decisive_nomatch_trait_"+t) > 0, "no decisive matching and non-matching (file, glob) pair with a glob containing "+t)
+	}
+	for _, t := range []string{"leading-dot-slash", "trailing-slash"} {
+		need(r.Counter("glob_decisive_match_trait_"+t)+r.Counter("glob_decisive_nomatch_trait_"+t) > 0, "no decisive (file, glob) pair with a glob with "+t)
+	}
+	need(r.SetLen("invalid_globs") >= 4, fmt.Sprintf("only %d distinct invalid globs exercised", r.SetLen("invalid_globs")))
 	need(r.Counter("runs_nothing_filtered") > 0 && r.Counter("runs_partly_filtered") > 0 && r.Counter("runs_everything_filtered") > 0, "not all of nothing / partly / everything filtered were observed")
 	need(r.Counter("dropped_by_cli") > 0 && r.Counter("dropped_by_config") > 0, "a filter mechanism never removed a diagnostic")
 	need(r.Counter("glob_entries_matching_a_file") > 0 && r.Counter("glob_entries_matching_no_file") > 0, "globs matching a file and globs matching no file were not both generated")
